@@ -21,13 +21,14 @@ Deltas(o) == [t \in 1..N |-> [i \in 1..Len(o[t - 1]) |-> o[t - 1][i].d]]
 Logged(e) == /\ wpend' = e.wpend
              /\ tpend' = [t \in Tracks |-> e.tpend[t + 1]]
              /\ Deltas(ops') = e.deltas
-Step == /\ err = "" /\ Recs[l].kind = "wtrace" /\ Recs[l].n = N /\ j < Len(Evs)
+Step == /\ Recs[l].kind = "wtrace" /\ Recs[l].n = N /\ j < Len(Evs)
         /\ LET e == Evs[j + 1] IN
            /\ CASE e.op = "meta"  -> Meta(e.name)
                 [] e.op = "rest"  -> Rest(e.k)
                 [] e.op = "note"  -> Note(e.k, e.keys)
                 [] e.op = "close" -> Close
-           /\ err' = IF Logged(e) THEN "" ELSE "the real writer's state differs from the model's after this call"
+           /\ err' = IF err # "" THEN err       \* (the first divergence is kept; the ghost timeline keeps following the calls)
+                      ELSE IF Logged(e) THEN "" ELSE "the real writer's state differs from the model's after this call"
         /\ j' = j + 1 /\ l' = l
 \* the bytes written are the model's ops
 FinalOf(t) == LET a == AbsOf(ops[t]) IN
@@ -35,7 +36,22 @@ FinalOf(t) == LET a == AbsOf(ops[t]) IN
 FinalOk == (j = Len(Evs) /\ err = "" /\ Recs[l].kind = "wtrace") =>
              /\ closed /\ Recs[l].written
              /\ \A t \in Tracks : FinalOf(t) = Recs[l].final[t + 1]
-Done == (j = Len(Evs) \/ err # "" \/ Recs[l].kind # "wtrace") /\ UNCHANGED tvars
+Done == (j = Len(Evs) \/ Recs[l].kind # "wtrace") /\ UNCHANGED tvars
+\* WHAT-level, independent of the mechanism model: the bytes the real writer serialised, merged over the tracks, are the
+\* timeline the calls denote (tl and now are computed from the call arguments only), and every track ends at the end
+ObsBag(t) == LET f == Recs[l].final[t + 1]
+                 g == SelectSeq(f, LAMBDA x : x[2] # "eot")
+             IN [i \in 1..Len(g) |-> <<g[i][1], IF g[i][2] = "meta" THEN <<"meta">> ELSE <<g[i][2], g[i][3]>> >>]
+RECURSIVE ObsMerge(_, _)
+ObsMerge(t, b) == IF t > N - 1 THEN b ELSE ObsMerge(t + 1, BagAddAll(b, ObsBag(t)))
+TlKinds == LET S == DOMAIN tl IN [x \in {<<y[1], IF y[2][1] = "meta" THEN <<"meta">> ELSE y[2]>> : y \in S} |->
+              LET M == {y \in S : <<y[1], IF y[2][1] = "meta" THEN <<"meta">> ELSE y[2]>> = x}
+                  RECURSIVE Sum(_)  Sum(Q) == IF Q = {} THEN 0 ELSE LET q == CHOOSE z \in Q : TRUE IN tl[q] + Sum(Q \ {q})
+              IN Sum(M)]
+ObservedTimeline == (j = Len(Evs) /\ Recs[l].kind = "wtrace") =>
+   /\ Recs[l].written
+   /\ ObsMerge(0, [x \in {} |-> 0]) = TlKinds
+   /\ \A t \in Tracks : LET f == Recs[l].final[t + 1] IN f # <<>> /\ f[Len(f)][2] = "eot" /\ f[Len(f)][1] = now
 TNext == Step \/ Done
 TSpec == TInit /\ [][TNext]_tvars
 Conforms == err = ""
